@@ -904,6 +904,13 @@ func drawLen(t *rapid.T, mode string) int {
 	if isBlockMode(mode) {
 		n -= n % bs
 	}
+	// the minimum length is hit by every clamp above; keep it rare
+	if n == lo && rapid.IntRange(0, 7).Draw(t, "keepMin") != 0 {
+		n = lo + bs*rapid.IntRange(1, 12).Draw(t, "bump")
+		if !isBlockMode(mode) {
+			n += rapid.SampledFrom([]int{0, 1, 8, 15}).Draw(t, "bumpOff")
+		}
+	}
 	return n
 }
 
@@ -1030,8 +1037,21 @@ func observe(mode string) {
 	if err != nil {
 		h.HarnessError("sm4.NewCipher: %v", err)
 	}
-	h.Observe("sm4.block", fmt.Sprintf("%T", b))
+	bt := fmt.Sprintf("%T", b)
+	h.Observe("sm4.block", bt)
 	h.Observe("sm4.concurrency", fmt.Sprint(nativeConc))
+	// a dispatch override that silently did not take effect must not be
+	// counted as coverage of that tier
+	switch h.Cfg {
+	case "noaes", "purego":
+		if bt != "*sm4.sm4Cipher" || nativeConc != 0 {
+			h.HarnessError("configuration %s did not select the generic SM4 block (got %s, concurrency %d)", h.Cfg, bt, nativeConc)
+		}
+	case "noavx2", "noavx":
+		if nativeConc != 4 {
+			h.HarnessError("configuration %s did not select the 4-block SM4 tier (got %s, concurrency %d)", h.Cfg, bt, nativeConc)
+		}
+	}
 	for path := 0; path < 3; path++ {
 		for _, dec := range []bool{false, true} {
 			c := mcase{Mode: mode, Path: path}
